@@ -23,6 +23,7 @@ var BranchTuples = []model.Branch{
 	{MidConn: "T", MidCont: "", LastConn: "", LastCont: "I"},
 	{MidConn: "--", MidCont: "--", LastConn: "==", LastCont: "=-"}, // continuation strings ending in connector characters
 	{MidConn: " ", MidCont: "  ", LastConn: " ", LastCont: "   "},  // blanks only
+	{MidConn: "|", MidCont: "|  ", LastConn: "`", LastCont: "|"},   // a connector that also occurs INSIDE the continuation strings
 }
 
 // allBranches lists every index of BranchTuples.
